@@ -817,8 +817,17 @@ func (w *worker) runPath(fn *ssaFunc, jb job) (newJobs []job) {
 		if len(ps.trail) > st.MaxDecs {
 			st.MaxDecs = len(ps.trail)
 		}
-		if len(st.Samples) < 5 && ps.model != nil {
-			st.Samples = append(st.Samples, map[string]any{"decisions": len(ps.trail), "inputs": ps.replayOf(ps.model)})
+		if len(st.Samples) < 5 {
+			m := ps.model
+			if m == nil {
+				m = Model{} // concrete path (or no cached model): unconstrained inputs default to 0
+				if len(ps.pc) > 0 {
+					if r, mm := i.check(ps.tt.Bool(true), true, "enum"); r == Sat {
+						m = mm
+					}
+				}
+			}
+			st.Samples = append(st.Samples, map[string]any{"decisions": len(ps.trail), "inputs": ps.replayOf(m)})
 		}
 	} else {
 		st.Aborted++
